@@ -4,6 +4,7 @@ Proof obligations: Props/C05.v (model: Ser/Json.v, Ser/Serialize.v, Ser/Deserial
 Tie: correspondence of `serialize` and `deserialize` of the model with the real
 Serializer(x).serialize() / Deserializer(cls).deserialize(doc) — separately, inside Coq — and the
 clauses of the property evaluated on the implementation (exact JSON types, json.dumps, real ==)."""
+import collections
 import datetime
 import json
 import random
@@ -13,6 +14,7 @@ from harness import coqemit as E
 from harness import fieldgen as G
 from harness import structgen as S
 from harness import sergen as SG
+from harness import c05ext as X
 
 
 # ------------------------------------------------------------------ running the implementation
@@ -33,11 +35,37 @@ class compact_deser:
         TypedPyDefaults.compact_deserialization_default = self.old
 
 
-def observe(x, cls, compact):
+def has_decimal(v, depth=0):
+    """A Decimal somewhere in the stored state (DecimalNumber's JSON form is documented as lossy)."""
+    import decimal
+    from typedpy import Structure
+    if isinstance(v, decimal.Decimal):
+        return True
+    if depth > 12:
+        return False
+    if isinstance(v, Structure):
+        return any(has_decimal(a, depth + 1) for k, a in v.__dict__.items() if k not in S.INTERNAL)
+    if isinstance(v, dict):
+        return any(has_decimal(k, depth + 1) or has_decimal(a, depth + 1) for k, a in v.items())
+    if isinstance(v, (list, tuple, set, frozenset, collections.deque)):
+        return any(has_decimal(a, depth + 1) for a in v)
+    return False
+
+
+doc_eq = X.doc_eq
+
+
+def observe(x, cls, compact, loose=False, fixpoint_only=False):
     """One round trip on the implementation.  Returns dict with the reified observations and the
-    spec verdicts: stage in (None, 'ser-raises', 'impure', 'deser-raises', 'not-equal')."""
+    spec verdicts: stage in (None, 'ser-raises', 'impure', 'deser-raises', 'not-equal', 'not-fixpoint').
+    loose (or a Decimal in x): the instance holds a value whose JSON form is documented as lossy -- the clause
+    judged is the weaker one: equality up to that loss and serialize(deserialize(serialize(x))) == serialize(x).
+    fixpoint_only (an Anything field is involved: tuples/sets come back as lists): only the fixpoint is judged."""
     from typedpy import Serializer, Deserializer, serialize
     o = {"compact": compact, "stage": None, "exn": None}
+    loose = loose or fixpoint_only or has_decimal(x)
+    o["loose"] = loose
+    o["fixpoint_only"] = fixpoint_only
     try:
         j = Serializer(x).serialize(compact=compact)
     except Exception as ex:  # noqa
@@ -53,7 +81,7 @@ def observe(x, cls, compact):
     except Exception as ex:  # noqa
         o.update(stage="ser-raises", exn=E.exn_name(ex), detail="serialize(x): " + str(ex)[:200])
         return o
-    pure = SG.only_json_types(j)
+    pure = X.pure_json(j)
     if pure:
         try:
             json.dumps(j)
@@ -71,12 +99,21 @@ def observe(x, cls, compact):
         return o
     o["deser"] = ("ok", SG.reify_o(y))
     try:
-        same = (y == x) and (x == y)
+        same = True if fixpoint_only else (X.loose_eq(y, x) if loose else ((y == x) and (x == y)))
     except Exception as ex:  # noqa
         same = False
         o["detail"] = "==: " + str(ex)[:200]
     if not same:
         o.update(stage="not-equal", exn="neq", detail="deserialized %r  original %r" % (y, x))
+        return o
+    if loose:
+        try:
+            j3 = Serializer(y).serialize(compact=compact)
+        except Exception as ex:  # noqa
+            o.update(stage="not-fixpoint", exn=E.exn_name(ex), detail="serialize(deserialize(serialize(x))) raises: " + str(ex)[:200])
+            return o
+        if not doc_eq(j3, j) or not X.pure_json(j3):
+            o.update(stage="not-fixpoint", exn="neq", detail="serialize(deserialize(serialize(x))) = %r  serialize(x) = %r" % (j3, j))
     return o
 
 
@@ -96,13 +133,24 @@ def field_roundtrip(f, v, ctx):
         x = T(f=G.unreify(v, ctx.classes))
     except Exception:  # noqa
         return None
-    return observe(x, T, False)
+    kinds = deep_kinds(f, ctx)
+    o = observe(x, T, False, fixpoint_only=bool(kinds & {"any", "anyj"}))
+    if o["stage"] in EXCUSABLE and "anyof" in kinds:
+        for g, w in X.walk(f, x.__dict__.get("f"), ctx):
+            if g["t"] == "anyof" and w is not None and X.distinguishable(g, w, ctx) is False:
+                o["excused"] = "ambiguous-anyof"
+                o["stage"] = None
+                break
+    return o
+
+
+EXCUSABLE = ("deser-raises", "not-equal", "not-fixpoint")
 
 
 def needs_field_to_serialize(g):
     """Values of g that are not JSON already: serialize_val needs the declaration to render them."""
     t = g["t"]
-    if t in ("enumcls", "mapkv", "mapany"):
+    if t in ("enumcls", "mapkv", "mapany", "decimal", "date"):
         return True
     if t in ("seqeach", "seqpos", "seqany") and g["k"] == "deque":
         return True
@@ -116,7 +164,7 @@ def needs_field_to_serialize(g):
 def needs_deserializer(g):
     """Documents of g that the constructor does not accept as they are."""
     t = g["t"]
-    if t in ("ref", "set", "tuple", "enumcls"):
+    if t in ("ref", "set", "tuple", "enumcls", "decimal", "date"):
         return True
     if t in ("seqeach", "seqpos", "seqany") and g["k"] == "deque":
         return True
@@ -125,17 +173,46 @@ def needs_deserializer(g):
     return any(needs_deserializer(s) for s in subs)
 
 
-def classify(f, v, stage, exn):
+def Serializer_doc(T, stored):
+    from typedpy import Serializer
+    return Serializer(T(f=stored)).serialize().get("f")
+
+
+def classify(f, v, stage, exn, ctx=None):
     """Input-shape part of a finding key: the known defect shapes by name, anything else by its full shape."""
     t = f["t"]
+    if t == "date" and v[0] == "other":
+        fmt = X.DATE_FMT[(f["k"], bool(f.get("custom")))][1]
+        rt = X.rt_format(f["k"], fmt, G.unreify(v))
+        return "date:%s(%s):%s" % (f["k"], "custom-format" if f.get("custom") else "default-format",
+                                   "format-round-trips" if rt else "format-loses-information")
+    if t == "anyof" and ctx is not None:
+        try:
+            stored = single_field_class(f, ctx)(f=G.unreify(v, ctx.classes)).__dict__.get("f")
+            g = X.serializing_option(f, stored, ctx)
+            if g is not None and not X.accepts(g, stored, ctx):
+                return "anyof:serialized-by-an-option-that-rejects-the-value"
+            T = single_field_class(f, ctx)
+            doc = Serializer_doc(T, stored)
+            rd = X.deserializing_option(f, doc, ctx)
+            if rd is not None and stage in ("deser-raises", "not-equal", "not-fixpoint"):
+                h, w = rd
+                if not X.accepts(h, w, ctx):
+                    return "anyof:deserialized-by-an-option-that-rejects-the-result"
+                empty = v in (("list", []), ("deque", []), ("dict", []), ("tuple", [])) or (v[0] == "set" and not v[2])
+                if w is None and empty and "none" in X.kinds_in(h):
+                    return "anyof:NoneField-option-first-reads-empty-collection-as-None"
+        except Exception:  # noqa
+            pass
     n = len(v[1]) if v[0] in ("list", "deque", "tuple") else (len(v[2]) if v[0] == "set" else None)
     if t == "seqpos" and stage == "ser-raises" and exn == "IndexError" and n is not None and n > len(f["items"]):
         return "positional-items:value-longer-than-items"
     if t == "tuple" and v[0] == "tuple":
         if len(f["items"]) == 1 and stage == "deser-raises" and exn == "IndexError" and n == 0:
             return "tuple-homogeneous:empty"
-        if stage in ("ser-raises", "deser-raises", "not-equal") and n and any(needs_field_to_serialize(g) for g in f["items"]):
-            return "tuple:item-serialized-without-its-field"
+        if stage in ("ser-raises", "deser-raises", "not-equal") and n and (
+                any(needs_field_to_serialize(g) for g in f["items"]) or any(x[0] == "dec" for x in v[1])):
+            return "tuple:item-serialized-without-its-field"       # a Decimal, too, is rendered by its field only
         if len(f["items"]) == 1:
             if stage == "deser-raises" and exn == "IndexError" and n == 0:
                 return "tuple-homogeneous:empty"
@@ -143,6 +220,8 @@ def classify(f, v, stage, exn):
                 return "tuple-homogeneous:tail-not-deserialized"
     if t == "num" and v[0] == "dec":
         return "number:holding-Decimal"
+    if t == "enumlit" and v[0] == "dec":
+        return "enumlit:holding-Decimal"
     return "shape=" + G.shape(f) + "/value=" + v[0]
 
 
@@ -157,10 +236,18 @@ def localise(f, v, o, ctx, depth=0):
             subs = [(decl[k], x) for k, x in v[2] if k in decl and x != ("none",)]
         except KeyError:
             subs = []
+    hits = []
     for g, x in subs:
+        if x == ("none",):
+            continue        # a None at a sub-position is not a value of a (required) field of its own
         r = field_roundtrip(g, x, ctx)
         if r is not None and r["stage"] is not None:
-            return localise(g, x, r, ctx, depth + 1)
+            hits.append((g, x, r))
+            if r["stage"] == o["stage"]:
+                break
+    if hits:
+        g, x, r = ([h for h in hits if h[2]["stage"] == o["stage"]] or hits)[0]
+        return localise(g, x, r, ctx, depth + 1)
     return f, v, o
 
 
@@ -168,23 +255,40 @@ def diagnose(c, kw, x, o, ctx, depth=0):
     """(key shape, what, replay data) for a failing round trip of instance x = c(**kw)."""
     fields = {fd["name"]: fd["field"] for fd in c["fields"]}
     src = python_src(c, kw, ctx, o["compact"])
-    # 1. a field that fails on its own
+    # 0. root cause F17, wherever it sits in the instance: a REQUIRED field whose (valid) value is None is dropped by
+    #    the serializer, and the constructor then misses a required argument
+    if o["stage"] == "deser-raises" and o["exn"] in ("TypeError", "ValueError") and "required" in (o.get("detail") or ""):
+        for cn, fn in X.required_none_fields(x):
+            if repr(fn) in o["detail"]:
+                return ("C05/deser-raises:TypeError/required-field-holding-None",
+                        "class %s: the required field %r holds None; the serializer drops it and deserialization fails: %s" % (
+                            cn, fn, o.get("detail", "")),
+                        {"kind": "class", "ast": c, "kw": kw, "compact": o["compact"], "stage": o["stage"], "exn": o["exn"],
+                         "python": src})
+    # 1. a field that fails on its own (preferably the way the instance fails)
+    hits = []
     for k, v in kw:
         if k in fields and v != ("none",):
             r = field_roundtrip(fields[k], v, ctx)
             if r is not None and r["stage"] is not None:
+                hits.append((k, v, r))
+                if r["stage"] == o["stage"]:
+                    break
+    hits = [h for h in hits if h[2]["stage"] == o["stage"]] or hits
+    for k, v, r in hits[:1]:
+            if True:
                 lf, lv, lo = localise(fields[k], v, r, ctx)
                 if lf["t"] == "ref" and lv[0] == "struct" and depth < 4:
                     # the nested instance fails as a whole: diagnose it as an instance of its own class
                     try:
                         nc = ctx.ast(lv[1])
                         nx = G.unreify(lv, ctx.classes)
-                        no = observe(nx, ctx.classes[lv[1]], False)
+                        no = observe(nx, ctx.classes[lv[1]], False, fixpoint_only=bool(class_kinds(nc, ctx) & {"any", "anyj"}))
                         if no["stage"] is not None:
                             return diagnose(nc, list(lv[2]), nx, no, ctx, depth + 1)
                     except Exception:  # noqa
                         pass
-                shape = classify(lf, lv, lo["stage"], lo["exn"])
+                shape = classify(lf, lv, lo["stage"], lo["exn"], ctx)
                 return ("C05/%s:%s/%s" % (lo["stage"], lo["exn"], shape),
                         "round trip of T(f=%s) with f = %s fails: %s %s (%s)" % (
                             G.py_src(lv), SG.field_src(lf), lo["stage"], lo["exn"], lo.get("detail", "")),
@@ -196,10 +300,14 @@ def diagnose(c, kw, x, o, ctx, depth=0):
     extras = [k for k, _ in kw if k not in fields]
     if none_required and o["stage"] == "deser-raises":
         shape = "required-field-holding-None"
-    elif o["compact"] and o["stage"] in ("deser-raises", "not-equal") and isinstance(o.get("doc"), dict):
+    elif o["compact"] and o["stage"] in ("deser-raises", "not-equal", "not-fixpoint") and isinstance(o.get("doc"), dict) \
+            and X.compact_wrapper(ctx.classes[c["name"]]):
         shape = "compact-wrapper:value-serializes-to-a-JSON-object"
-    elif extras and o["stage"] == "not-equal" and keep_undefined_fixes(ctx.classes[c["name"]], x, o):
+        if o["stage"] == "not-fixpoint":
+            o = dict(o, stage="not-equal", exn="neq")       # one root cause, one key, whichever clause exposed it
+    elif extras and o["stage"] in ("not-equal", "not-fixpoint") and keep_undefined_fixes(ctx.classes[c["name"]], x, o):
         shape = "additional-properties:extras-dropped-unless-keep_undefined=True"
+        o = dict(o, stage="not-equal", exn="neq")       # one root cause, one key, whichever clause exposed it
     else:
         feats = []
         if c.get("ignore_none"):
@@ -218,6 +326,7 @@ def diagnose(c, kw, x, o, ctx, depth=0):
 
 def report_failure(rep, case, o, ctx):
     key, what, data = diagnose(case["ast"], case["kw"], case["x"], o, ctx)
+    data["loose"] = bool(o.get("loose"))
     rep.finding(key, what, data)
 
 
@@ -225,19 +334,22 @@ def keep_undefined_fixes(cls, x, o):
     from typedpy import Deserializer
     try:
         y = Deserializer(cls).deserialize(o["doc"], keep_undefined=True)
-        return y == x
+        if o.get("fixpoint_only"):
+            from typedpy import Serializer
+            return Serializer(y).serialize(compact=o["compact"]) == o["doc"]
+        return X.loose_eq(y, x) if o.get("loose") else y == x
     except Exception:  # noqa
         return False
 
 
 def field_python_src(f, v, ctx):
-    return (SG.IMPORTS + "from typedpy import Serializer, Deserializer\n" + ctx.source() +
+    return (X.IMPORTS + "from typedpy import Serializer, Deserializer\n" + ctx.source() +
             "\nclass T(Structure):\n    f = %s\n    _required = ['f']\n\nx = T(f=%s)\nj = Serializer(x).serialize()\n"
             "print(j)\ny = Deserializer(T).deserialize(j)\nprint(y == x)\n" % (SG.field_src(f), G.py_src(v)))
 
 
 def python_src(c, kw, ctx, compact):
-    return (SG.IMPORTS + "from typedpy import Serializer, Deserializer\n" + ctx.source() +
+    return (X.IMPORTS + "from typedpy import Serializer, Deserializer\n" + ctx.source() +
             "\nx = %s(%s)\nj = Serializer(x).serialize(compact=%r)\nprint(j)\ny = Deserializer(%s).deserialize(j)\nprint(y == x)\n" % (
                 c["name"], ", ".join("%s=%s" % (k, G.py_src(v)) for k, v in kw), compact, c["name"]))
 
@@ -371,47 +483,206 @@ def date_stream(rep, rnd, n):
 
 # ------------------------------------------------------------------ the check
 
+def coq_eval_groups(groups, ty, fns, tag, per=250):
+    """groups: [(ctx, [emitted records of type ty])] -- every group has its own class environment, every shard
+    carries the header of its group.  Returns {fn: [(group index, item index)]}."""
+    shards, where = [], []
+    for gi, (ctx, items) in enumerate(groups):
+        hdr = HEADER % (ctx.coq_env(), ctx.coq_enums())
+        for s in range(0, len(items), per):
+            body = hdr + "Definition cases : list %s := %s.\n" % (ty, E.lst(["\n " + i for i in items[s:s + per]]))
+            for fn in fns:
+                body += "Eval vm_compute in (indices_where %s cases 0).\n" % fn
+            shards.append(body)
+            where.append((gi, s))
+    res = core.eval_cases(shards, tag, "")
+    out = {fn: [] for fn in fns}
+    for si, (rc, so, se) in enumerate(res):
+        vals = core.parse_eval(so)
+        if rc != 0 or len(vals) != len(fns):
+            raise RuntimeError("case shard %d failed to evaluate: %s" % (si, (so + se)[-2000:]))
+        gi, base = where[si]
+        for fn, v in zip(fns, vals):
+            out[fn] += [(gi, base + i) for i in core.parse_nat_list(v)]
+    return out
+
+
 def build_cases(rnd, tier):
-    n_classes = 90 if tier == "quick" else 400
-    ctx, pools = SG.build_world(rnd, n_classes, max_depth=2 if tier == "quick" else 3)
+    n_classes = 110 if tier == "quick" else 450
+    SG.EXTRA_INJECT = True
+    ctx, pools = SG.build_world(rnd, n_classes, max_depth=2 if tier == "quick" else 3, field_gen=X.gen_field_main,
+                                ctx_cls=X.XContext)
+    X.add_dispatch_classes(rnd, ctx, pools, 40 if tier == "quick" else 200, False, "KD")
+    return ctx, cases_of(ctx, pools)
+
+
+def cases_of(ctx, pools):
+    """Every instance with compact=False; with compact=True (and compact deserialization on) for EVERY single-field
+    class -- whether or not it is a wrapper in typedpy's sense: for the others the compact flag must change nothing --
+    and for every fourth instance of the other classes."""
     cases = []
+    n = 0
     for c in ctx.asts:
         for kw, x in pools.get(c["name"], []):
             cases.append({"ast": c, "kw": kw, "x": x, "compact": False})
-            resolved = ctx.resolved(c["name"])
-            if len(c["fields"]) == 1 and resolved["required"] == [c["fields"][0]["name"]] and not resolved["additional"]:
+            n += 1
+            if len(c["fields"]) == 1 or n % 4 == 0:
                 cases.append({"ast": c, "kw": kw, "x": x, "compact": True})
-    return ctx, cases
+    return cases
+
+
+def build_ext_cases(rnd, tier):
+    """Classes with the SerializableField leaves outside the Coq model (DecimalNumber, DateField, DateTime, TimeField)
+    at every position; judged on the implementation only."""
+    n_classes = 70 if tier == "quick" else 400
+    SG.EXTRA_INJECT = True
+    ctx, pools = SG.build_world(rnd, n_classes, max_depth=2 if tier == "quick" else 3, prefix="E",
+                                field_gen=X.gen_field_ext, ctx_cls=X.XContext)
+    X.add_dispatch_classes(rnd, ctx, pools, 40 if tier == "quick" else 200, True, "ED")
+    return ctx, cases_of(ctx, pools)
+
+
+def class_kinds(c, ctx, seen=None):
+    """Declaration kinds occurring in class c, nested structures included."""
+    seen = seen if seen is not None else set()
+    kinds = set()
+    if c["name"] in seen:
+        return kinds
+    seen.add(c["name"])
+    for fd in c["fields"]:
+        X.kinds_in(fd["field"], kinds)
+        for ref in refs_in(fd["field"]):
+            try:
+                kinds |= class_kinds(ctx.ast(ref), ctx, seen)
+            except KeyError:
+                pass
+    return kinds
+
+
+def deep_kinds(f, ctx):
+    """Declaration kinds occurring in f, the classes it refers to included."""
+    kinds = set(X.kinds_in(f))
+    for ref in refs_in(f):
+        try:
+            kinds |= class_kinds(ctx.ast(ref), ctx)
+        except KeyError:
+            pass
+    return kinds
+
+
+def refs_in(f, acc=None):
+    acc = acc if acc is not None else []
+    if f["t"] == "ref":
+        acc.append(f["cls"])
+    for key in ("item", "kf", "vf"):
+        if isinstance(f.get(key), dict):
+            refs_in(f[key], acc)
+    for key in ("items", "fs"):
+        for g in f.get(key) or []:
+            refs_in(g, acc)
+    return acc
+
+
+def date_finding_key(o, leaves):
+    """Key of a failure of an instance holding a date/time value that its format does not round-trip (RT false)."""
+    kind, custom, d, _ = [l for l in leaves if not l[3]][0]
+    return "C05/%s:%s/date:%s(%s):format-loses-information" % (
+        o["stage"], o["exn"], kind, "custom-format" if custom else "default-format")
+
+
+def judge(rep, stream, ctx, cases, modelled=True):
+    """Runs every case on the implementation and evaluates the clauses of the property on what is observed."""
+    obs = []
+    for case in cases:
+        x = case["x"]
+        c = case["ast"]
+        kinds = class_kinds(c, ctx)
+        o = observe(x, ctx.classes[c["name"]], case["compact"], fixpoint_only=bool(kinds & {"any", "anyj"}))
+        obs.append(o)
+        shape = (tuple(sorted(G.shape(fd["field"]) for fd in c["fields"])), bool(c.get("ignore_none")), c.get("additional"),
+                 case["compact"], tuple((k, v[0]) for k, v in case["kw"]), case.get("label"))
+        rep.count(stream, 1, shape)
+        rep.stat(stream, "outcome:" + (o["stage"] or "ok"))
+        rep.stat(stream, "clause:" + ("lossy-fixpoint" if o.get("loose") else "equal-instance"))
+        for k in kinds:
+            rep.stat(stream, "kind:" + k)
+        measure(rep, stream, x, ctx, kinds)
+        if o["stage"] is None:
+            continue
+        if o["stage"] in ("deser-raises", "not-equal", "not-fixpoint"):
+            leaves = X.date_leaves(x, ctx) if "date" in kinds and o["stage"] == "not-equal" else []
+            if any(not l[3] for l in leaves) and X.differs_only_in_dates(x, ctx.classes[c["name"]], case["compact"]):
+                rep.stat(stream, "hypothesis:RT-of-a-date-format-false")
+                rep.finding(date_finding_key(o, leaves),
+                            "an instance holding %r does not round-trip; the field's format does not round-trip that value (RT false): %s"
+                            % ([l[2] for l in leaves if not l[3]][0], o.get("detail", "")),
+                            {"kind": "class", "python": python_src(c, case["kw"], ctx, case["compact"]), "loose": o.get("loose"),
+                             "stage": o["stage"], "exn": o["exn"]})
+                continue
+            amb = X.ambiguous_anyof(x, ctx) if "anyof" in kinds or not modelled else None
+            if amb is not None:
+                # the property quantifies over AnyOf with DISTINGUISHABLE options: here the first option that reads the
+                # serialized value reads it as something else, so the hypothesis fails on this value -- measured, not judged
+                rep.stat(stream, "hypothesis:anyof-not-distinguishable(excused)")
+                o["excused"] = "ambiguous-anyof"
+                continue
+        report_failure(rep, case, o, ctx)
+    fails = sum(1 for o in obs if o["stage"] is not None and not o.get("excused"))
+    rep.obligation("spec-on-observed:" + stream, True,
+                   "%d instances, %d spec failures (each reported as a finding), %d not judged (AnyOf value does not distinguish "
+                   "the options)" % (len(cases), fails, sum(1 for o in obs if o.get("excused"))))
+    if cases:
+        for i in (0, len(cases) // 2, len(cases) - 1):
+            rep.sample({"stream": stream, "python": python_src(cases[i]["ast"], cases[i]["kw"], ctx, cases[i]["compact"])[-600:],
+                        "serialized": repr(obs[i].get("doc"))[:300], "stage": obs[i]["stage"]})
+    return obs
+
+
+def measure(rep, stream, x, ctx, kinds):
+    """Input distribution of the classes of inputs the property singles out (written to the evidence file)."""
+    import enum as _enum
+    n_anyof = n_falsy_enum = n_falsy = 0
+    for f, v in X.walk_instance(x, ctx):
+        if f["t"] == "anyof" and v is not None and len([g for g in f["fs"] if g["t"] != "none"]) > 1:
+            n_anyof += 1
+            rej = []
+            d = X.distinguishable(f, v, ctx, rej)
+            rep.stat(stream, "anyof-value:" + {True: "distinguishes-the-options", False: "does-not-distinguish", None: "not-measured"}[d])
+            for name in rej:
+                rep.stat(stream, "anyof-earlier-option-rejects-with:" + name)
+            if d and any(n not in ("TypeError", "ValueError") for n in rej):
+                rep.stat(stream, "instances-with:anyof-earlier-option-rejects-with-other-than-TypeError/ValueError")
+        if isinstance(v, _enum.Enum):
+            if not v.value:
+                n_falsy_enum += 1
+        elif f["t"] not in ("anyof", "ref") and v is not None and not v and not isinstance(v, _enum.Enum):
+            n_falsy += 1
+    if n_anyof:
+        rep.stat(stream, "instances-with:multi-option-anyof-value")
+    if n_falsy_enum:
+        rep.stat(stream, "instances-with:enum-member-of-falsy-value")
+    if n_falsy:
+        rep.stat(stream, "instances-with:falsy-value")
 
 
 def run(rep, tier):
     rnd = random.Random(core.seed() * 1000003 + 5)
     proofs_ok, model_ok = core.standard_proof_obligations(rep, "C05", ["theories/Check/C05chk.vo"])
+    worlds = []          # (stream, ctx, cases, obs) of the worlds inside the Coq model
     ctx, cases = build_cases(rnd, tier)
-    obs = []
-    for case in cases:
-        o = observe(case["x"], ctx.classes[case["ast"]["name"]], case["compact"])
-        obs.append(o)
-        c = case["ast"]
-        shape = (tuple(sorted(G.shape(fd["field"]) for fd in c["fields"])), bool(c.get("ignore_none")), c.get("additional"),
-                 case["compact"], tuple((k, v[0]) for k, v in case["kw"]))
-        rep.count("roundtrip", 1, shape)
-        rep.stat("roundtrip", "outcome:" + (o["stage"] or "ok"))
-        for fd in c["fields"]:
-            rep.stat("roundtrip", "kind:" + fd["field"]["t"])
-        if o["stage"] is not None:
-            report_failure(rep, case, o, ctx)
-    fails = sum(1 for o in obs if o["stage"] is not None)
-    rep.obligation("spec-on-observed:roundtrip", True, "%d instances, %d spec failures (each reported as a finding)" % (len(cases), fails))
-    if cases:
-        for i in (0, len(cases) // 2, len(cases) - 1):
-            rep.sample({"python": python_src(cases[i]["ast"], cases[i]["kw"], ctx, cases[i]["compact"])[-600:],
-                        "serialized": repr(obs[i].get("doc"))[:300], "stage": obs[i]["stage"]})
+    worlds.append(("roundtrip", ctx, cases, judge(rep, "roundtrip", ctx, cases)))
+    for li, (lctx, lcases) in enumerate(lattice_worlds(False)):
+        worlds.append(("lattice", lctx, lcases, judge(rep, "lattice", lctx, lcases)))
+    for lctx, lcases in lattice_worlds(True):
+        judge(rep, "lattice-serializable-leaves", lctx, lcases, modelled=False)
+    ectx, ecases = build_ext_cases(rnd, tier)
+    judge(rep, "serializable-leaves", ectx, ecases, modelled=False)
     date_stream(rep, rnd, 300 if tier == "quick" else 3000)
+    thresholds(rep)
 
     if model_ok:
         try:
-            correspondence(rep, ctx, cases, obs)
+            correspondence(rep, worlds)
         except RuntimeError as ex:
             rep.broken("correspondence:coq-eval", str(ex))
     if not proofs_ok:
@@ -419,53 +690,97 @@ def run(rep, tier):
         broken_build(rep)
     rep.assumptions += [
         "re.match is an oracle (Section variable), instantiated per run by a table filled from the real re module",
-        "date/time fields are outside the Coq model: their round trip is evaluated on the implementation, with the "
-        "format's own round trip RT measured on every generated value",
-        "C05_roundtrip is proved for the fragment `frag`/`canon` of Ser/RoundTripProofs.v (see Props/C05.v); AnyOf, positional "
+        "DecimalNumber and the date/time fields are outside the Coq model: their round trip (in every position: field, item of "
+        "Array/Deque/Set/Tuple, Map key/value, AnyOf option, nested structure, compact wrapper) is evaluated on the implementation, "
+        "with the format's own round trip RT measured on every generated value and the weaker lossy-fixpoint clause for Decimal",
+        "AnyOf: the options are arbitrary declarations of the fragment; the hypothesis 'distinguishable' is MEASURED per value "
+        "(the first option whose own deserializer reads the serialized value reads it as the value) and failures on values that do "
+        "not distinguish the options are counted, not judged",
+        "C05_roundtrip is proved for the fragment `frag`/`canon` of Ser/RoundTripProofs.v (see Props/C05.v); positional "
         "Array/Deque items, ImmutableSet and Anything are covered by the executable model and the correspondence only",
     ]
     return rep.finish(
-        rule="classes of the serializable fragment generated in layers (scalars, enums by name/value, Array/Deque/Set/"
-             "Tuple/Map, nested structures, Optional/AnyOf; _ignore_none, _additional_properties, compact wrappers), "
-             "valid instances with falsy values injected at every position; distinct = (field shapes, flags, value kinds)")
+        rule="classes of the serializable fragment generated in layers (scalars, enums by name/value incl. members of falsy value, "
+             "Array/Deque/Set/Tuple/Map, nested structures, Optional/AnyOf over arbitrary options; _ignore_none, "
+             "_additional_properties, compact wrappers), valid instances with falsy values injected at every position; a "
+             "deterministic lattice leaf x position x value; DecimalNumber/date/time leaves at every position; "
+             "distinct = (field shapes, flags, value kinds)")
 
 
-def correspondence(rep, ctx, cases, obs):
-    insts = [SG.reify_o(case["x"]) for case in cases]
-    docs = [o["ser"][1] for o in obs if o.get("ser", ("",))[0] == "ok"]
-    tbl = tables_for(ctx, insts + docs)
-    s_items = [emit_scase(inst, case["compact"], o["ser"], tbl) for inst, case, o in zip(insts, cases, obs)]
-    r = coq_eval(s_items, "scase", ["smismatch", "sunmodelled", "simpure"], ctx, "c05s")
-    rep.count("correspondence:ser", len(s_items))
+_LATTICE = {}
+
+
+def lattice_worlds(ext):
+    if ext not in _LATTICE:
+        _LATTICE[ext] = X.build_lattice(ext, "X" if ext else "L")
+    return _LATTICE[ext]
+
+
+def thresholds(rep):
+    """A stream whose coverage of the input classes the property singles out is too thin fails the run as inconclusive."""
+    need = [("roundtrip", "instances-with:multi-option-anyof-value", 15), ("roundtrip", "instances-with:falsy-value", 100),
+            ("roundtrip", "instances-with:enum-member-of-falsy-value", 5), ("lattice", "instances-with:enum-member-of-falsy-value", 100),
+            ("serializable-leaves", "kind:decimal", 30), ("serializable-leaves", "kind:date", 30),
+            ("roundtrip", "instances-with:anyof-earlier-option-rejects-with-other-than-TypeError/ValueError", 5),
+            ("lattice", "instances-with:anyof-earlier-option-rejects-with-other-than-TypeError/ValueError", 20),
+            ("serializable-leaves", "instances-with:anyof-earlier-option-rejects-with-other-than-TypeError/ValueError", 3)]
+    bad = []
+    for stream, key, n in need:
+        got = rep.cov["streams"].get(stream, {}).get("dist", {}).get(key, 0)
+        if got < n:
+            bad.append("%s/%s: %d < %d" % (stream, key, got, n))
+    rep.obligation("coverage:input-classes", not bad, "; ".join(bad) or "all thresholds met")
+    if bad:
+        rep.broken("coverage:input-classes", "the generated inputs do not cover the classes the property singles out: " + "; ".join(bad))
+
+
+def correspondence(rep, worlds):
+    sgroups, dgroups, dmaps = [], [], []
+    for stream, ctx, cases, obs in worlds:
+        insts = [SG.reify_o(case["x"]) for case in cases]
+        docs = [o["ser"][1] for o in obs if o.get("ser", ("",))[0] == "ok"]
+        tbl = tables_for(ctx, insts + docs)
+        sgroups.append((ctx, [emit_scase(inst, case["compact"], o["ser"], tbl) for inst, case, o in zip(insts, cases, obs)]))
+        d_idx = [i for i, o in enumerate(obs) if "deser" in o]
+        dmaps.append(d_idx)
+        dgroups.append((ctx, [emit_dcase(cases[i]["ast"]["name"], obs[i]["ser"][1], obs[i]["deser"], tbl, compact=cases[i]["compact"])
+                              for i in d_idx]))
+    r = coq_eval_groups(sgroups, "scase", ["smismatch", "sunmodelled", "simpure"], "c05s")
+    n_s = sum(len(g[1]) for g in sgroups)
+    rep.count("correspondence:ser", n_s)
     rep.cov["streams"]["correspondence:ser"]["declined_by_model"] = len(r["sunmodelled"])
     rep.obligation("correspondence:serialize", not r["smismatch"], "%d cases, %d mismatches, %d outside the model" % (
-        len(s_items), len(r["smismatch"]), len(r["sunmodelled"])))
+        n_s, len(r["smismatch"]), len(r["sunmodelled"])))
     # the purity clause evaluated in Coq on the reified output must agree with the Python-side verdict
-    py_impure = {i for i, o in enumerate(obs) if o["stage"] in ("ser-raises", "impure")}
+    py_impure = {(gi, i) for gi, w in enumerate(worlds) for i, o in enumerate(w[3]) if o["stage"] in ("ser-raises", "impure")}
     rep.obligation("spec-on-observed:json_pure(coq)", set(r["simpure"]) == py_impure,
                    "%d impure/raising outputs (Coq) vs %d (Python)" % (len(r["simpure"]), len(py_impure)))
+
+    def src(gi, i):
+        _, ctx, cases, obs = worlds[gi]
+        return python_src(cases[i]["ast"], cases[i]["kw"], ctx, cases[i]["compact"])
+
     if set(r["simpure"]) != py_impure:
-        i = sorted(set(r["simpure"]) ^ py_impure)[0]
-        rep.broken("spec-on-observed:json_pure", "json_pure (Coq) and the Python type walk disagree",
-                   {"python": python_src(cases[i]["ast"], cases[i]["kw"], ctx, cases[i]["compact"])})
-    if r["smismatch"] and not any(not v["no_input"] for v in rep.violations):
-        i = r["smismatch"][0]
+        gi, i = sorted(set(r["simpure"]) ^ py_impure)[0]
+        rep.broken("spec-on-observed:json_pure", "json_pure (Coq) and the Python type walk disagree", {"python": src(gi, i)})
+    concrete = any(not v["no_input"] for v in rep.violations)
+    if r["smismatch"] and not concrete:
+        gi, i = r["smismatch"][0]
         rep.broken("correspondence:serialize", "model (Ser/Serialize.v) and typedpy differ on %d generated instances; no "
                    "round-trip failure was observed" % len(r["smismatch"]),
-                   {"python": python_src(cases[i]["ast"], cases[i]["kw"], ctx, cases[i]["compact"]), "observed": repr(obs[i]["ser"])})
-    d_idx = [i for i, o in enumerate(obs) if "deser" in o]
-    d_items = [emit_dcase(cases[i]["ast"]["name"], obs[i]["ser"][1], obs[i]["deser"], tbl, compact=cases[i]["compact"])
-               for i in d_idx]
-    r2 = coq_eval(d_items, "dcase", ["dmismatch", "dunmodelled"], ctx, "c05d")
-    rep.count("correspondence:deser", len(d_items))
+                   {"python": src(gi, i), "observed": repr(worlds[gi][3][i]["ser"])})
+    r2 = coq_eval_groups(dgroups, "dcase", ["dmismatch", "dunmodelled"], "c05d")
+    n_d = sum(len(g[1]) for g in dgroups)
+    rep.count("correspondence:deser", n_d)
     rep.cov["streams"]["correspondence:deser"]["declined_by_model"] = len(r2["dunmodelled"])
     rep.obligation("correspondence:deserialize", not r2["dmismatch"], "%d cases, %d mismatches, %d outside the model" % (
-        len(d_items), len(r2["dmismatch"]), len(r2["dunmodelled"])))
-    if r2["dmismatch"] and not any(not v["no_input"] for v in rep.violations):
-        i = d_idx[r2["dmismatch"][0]]
+        n_d, len(r2["dmismatch"]), len(r2["dunmodelled"])))
+    if r2["dmismatch"] and not concrete:
+        gi, di = r2["dmismatch"][0]
+        i = dmaps[gi][di]
         rep.broken("correspondence:deserialize", "model (Ser/Deserialize.v) and typedpy differ on %d documents; no "
                    "round-trip failure was observed" % len(r2["dmismatch"]),
-                   {"python": python_src(cases[i]["ast"], cases[i]["kw"], ctx, cases[i]["compact"]), "observed": repr(obs[i]["deser"])})
+                   {"python": src(gi, i), "observed": repr(worlds[gi][3][i]["deser"])})
 
 
 def replay(obj):
@@ -490,6 +805,13 @@ def replay(obj):
         print("observed: raises", type(ex).__name__, ex)
         print("required: output pure JSON and deserialization returns an instance equal to x")
         return 1
-    ok = ns.get("y") == ns.get("x") and SG.only_json_types(ns.get("j"))
-    print("required: output pure JSON and y == x;  observed:", "holds" if ok else "VIOLATED")
+    x, y, j = ns.get("x"), ns.get("y"), ns.get("j")
+    if obj.get("loose") or has_decimal(x):
+        from typedpy import Serializer
+        ok = X.loose_eq(y, x) and X.pure_json(j) and Serializer(y).serialize(compact=bool(obj.get("compact"))) == j
+        print("required: output pure JSON, y == x up to the documented loss, serialize(y) == serialize(x);  observed:",
+              "holds" if ok else "VIOLATED")
+    else:
+        ok = y == x and X.pure_json(j)
+        print("required: output pure JSON and y == x;  observed:", "holds" if ok else "VIOLATED")
     return 0 if ok else 1
